@@ -4,6 +4,7 @@ import (
 	"bytes"
 	"fmt"
 	"reflect"
+	"strings"
 	"testing"
 	"time"
 
@@ -273,7 +274,7 @@ func checkC13(c CaseC13) error {
 
 // ---- generators
 
-var c13Strs = []string{"", "a", "b", "ab", "bc", "abc", "c", "A1", "\x00", "é"}
+var c13Strs = []string{"", "a", "b", "ab", "bc", "abc", "c", "A1", "\x00", "é", "a\x00", "\x00b", strings.Repeat("long-", 60), strings.Repeat("long-", 60) + "x", strings.Repeat("0123456789abcdef", 4200)}
 
 func g13Str(t *rapid.T, l string) string { return rapid.SampledFrom(c13Strs).Draw(t, l) }
 func g13OptStr(t *rapid.T, l string) *string {
@@ -341,7 +342,7 @@ func g13Trip(t *rapid.T) *H13Trip {
 	long := rapid.IntRange(0, 11).Draw(t, "longList") == 0
 	if long {
 		// size class: long runs of updates, most of them identified by sequence only (no strings between the numbers)
-		n = rapid.SampledFrom([]int{9, 17, 33, 70}).Draw(t, "longN")
+		n = rapid.SampledFrom([]int{9, 17, 33, 70, 130, 260, 520}).Draw(t, "longN")
 	}
 	for i := 0; i < n; i++ {
 		u := g13STU(t)
